@@ -278,6 +278,43 @@ def bounded(ctx):
                     B.fail("replacement-embedded-under-the-same-name", case, f"envelope holds {after.get(name)!r}")
                 if with_file and (not os.path.exists(pf) or open(pf, "rb").read() != orig):
                     B.fail("extracted-payload-written-byte-identical", case, "output payload file missing or different" + ("" if os.path.exists(pf) else " (file not written: payload lost)"))
+    # the same payload name at two places of the hierarchy with DIFFERENT bytes, both selected: one cache cannot hold both, so the only
+    # outcomes that lose nothing are a refusal (exception, no payload dropped) or keeping one of them in its envelope
+    clashes = {
+        "root-and-dependency": S.make_envelope("c0", payloads=[("#same", b"\x01" * 9)], deps=[("#dep_x", S.make_envelope("cx", payloads=[("#same", b"\x02" * 5)]))]),
+        "sibling-dependencies": S.make_envelope("c1", deps=[("#dep_x", S.make_envelope("cx", payloads=[("#same", b"\x03" * 4)])), ("#dep_y", S.make_envelope("cy", payloads=[("#same", b"\x04" * 6)]))]),
+        "root-and-depth-3": S.make_envelope("c2", payloads=[("#same", b"\x05" * 3)], deps=[("#dep_x", S.make_envelope("cx", deps=[("#dep_z", S.make_envelope("cz", payloads=[("#same", b"")]))]))]),
+    }
+    for cname, env in clashes.items():
+        case = {"clash": cname}
+        B.case(("clash", cname))
+        inp, outp, cache = f"{d}/in.suit", f"{d}/out.suit", f"{d}/c.cache"
+        open(inp, "wb").write(env)
+        for f in (outp, cache):
+            if os.path.exists(f):
+                os.unlink(f)
+        try:
+            cc.main(cache_create_subcommand="from_envelope", eb_size=8, input_envelope=inp, output_envelope=outp, output_file=cache, omit_payload_regex=None, dependency_regex="#dep_.*")
+        except Exception:  # noqa: BLE001  (a refusal loses nothing)
+            continue
+        # accepted: every payload of the input must still be somewhere
+        def collect(b, acc):
+            t = cborx.decode_all(b).value
+            for k, v in t.pairs:
+                if isinstance(k, str):
+                    if k.startswith("#dep_"):
+                        collect(v, acc)
+                    else:
+                        acc.append((k, v))
+        want, left = [], []
+        collect(env, want)
+        collect(open(outp, "rb").read(), left)
+        import cbor2
+        cached = [(k, v) for k, v in cbor2.loads(open(cache, "rb").read()).items() if k != ""]
+        have = left + cached
+        missing = [kv for kv in want if kv not in have]
+        if missing:
+            B.fail("every-payload-ends-up-in-exactly-one-place", case, f"accepted, but {[(k, len(v)) for k, v in missing]} is neither in the output envelope nor in the cache")
     return B.done()
 
 
